@@ -1611,6 +1611,146 @@ def r06x(ctx, rep, rule="R06x"):
             rep.ok(rule, key, "%s builds Some(..) on every path (%s)" % (short_path(path), why), [f.span])
 
 
+def r06j(ctx, rep, rule="R06j"):
+    """every cycle of the macro expander makes progress"""
+    facts = ctx["facts"]
+    rep.rule(rule, "expansion is compile-time work no run_count budget bounds: a loop of the expander that can go round without "
+             "consuming anything never ends and allocates until the process aborts — the valid macro "
+             "(syntax-rules () ((_ ((a b) ...) ...) '(((a b) ...) ...))) applied to ((1 2)) did (its cursors run out in turns and "
+             "start over, so the 'nothing consumed' test never saw an unchanged state). In every function of the transform "
+             "module, every cycle of every loop passes a block that makes progress: a call of Iterator::next (the loop walks a "
+             "finite sequence), a pop from a worklist of references into a Cell (an owned tree: what is pushed are children of "
+             "the popped node), or the exit test of a counter that the loop only increments (compared with < <= > >=, one edge "
+             "leaving the loop). Decided: the shape of the cycles; that the bound itself is finite is read off the code "
+             "(Vec::len of the matches).")
+    n = 0
+    for path, f in sorted(facts.fns.items()):
+        if not path.startswith("marwood::vm::transform::") or "::tests::" in path:
+            continue
+        loops = {}
+        for src, h in f.back_edges():
+            loops.setdefault(h, set()).update((f.reach_from(h) & f.reach_back(src)) | {h, src})
+        for h, body in sorted(loops.items()):
+            n += 1
+            progress = set()
+            for bb, t in f.calls():
+                if bb in body and re.search(r"Iterator>::next$|::next$", (t.get("fnargs") or callee(t) or "")) and \
+                        "peek" not in (callee(t) or ""):
+                    progress.add(bb)
+            # a worklist of references into an owned tree (Cell holds its children in Box / Vec: no sharing, no cycles): every
+            # pop takes a node off, and what is pushed are children of the popped node, never the node itself
+            pops = [(bb, t) for bb, t in f.calls() if bb in body and
+                    re.search(r"Vec::<&(mut )?marwood::cell::Cell>::pop$", t.get("fnargs") or "")]
+            if pops:
+                popped = set()
+                for bb, t in pops:
+                    popped.add(t["dest"]["l"])
+                same = False
+                for bb, t in f.calls():
+                    if bb in body and re.search(r"Vec::<&(mut )?marwood::cell::Cell>::push$", t.get("fnargs") or "") and len(t["args"]) > 1:
+                        oa = f.origin(t["args"][1])
+                        if oa[0] in ("local", "call") and not [e for e in (oa[2] if len(oa) > 2 else []) if e != "*"]:
+                            l_ = oa[1] if oa[0] == "local" else None
+                            if l_ in popped:
+                                same = True
+                if not same:
+                    progress |= {bb for bb, t in pops}
+            # counters: locals incremented by a constant inside the loop and assigned nowhere else in it but from that sum or a constant
+            incs = {}
+            for bb, j, st in f.stmts():
+                rv = st["rv"]
+                if bb in body and rv["k"] == "bin" and rv["op"] in ("Add", "AddWithOverflow", "AddUnchecked"):
+                    pa, cb = op_place(rv["a"]), op_const(rv["b"])
+                    if pa is not None and not pa["p"] and cb is not None and cb.get("int", 0) > 0:
+                        incs[st["lhs"]["l"]] = pa["l"]
+            counters = set()
+            for bb, j, st in f.stmts():
+                rv = st["rv"]
+                if bb in body and rv["k"] == "use" and not st["lhs"]["p"]:
+                    pa = op_place(rv["a"])
+                    if pa is not None and pa["l"] in incs and incs[pa["l"]] == st["lhs"]["l"]:
+                        counters.add(st["lhs"]["l"])
+            for bb in sorted(body):
+                t = f.blocks[bb]["term"]
+                if t["k"] != "switch":
+                    continue
+                o = f.origin(t["op"])
+                if o[0] != "rv" or o[1]["rv"]["k"] != "bin" or o[1]["rv"]["op"] not in ("Gt", "Ge", "Lt", "Le"):
+                    continue
+                sides = []
+                for side in ("a", "b"):
+                    oo = f.origin(o[1]["rv"][side])
+                    if oo[0] == "local":
+                        sides.append(oo[1])
+                leaves = any(tg not in body for _, tg in t["targets"]) or t["otherwise"] not in body
+                if leaves and any(c in counters for c in sides):
+                    progress.add(bb)
+            # is there a cycle through the header that avoids every progress block?
+            bad = None
+            if h not in progress:
+                seen, stack = set(), [(s_, [h, s_]) for s_ in f.succ[h] if s_ in body]
+                while stack:
+                    x, pth = stack.pop()
+                    if x == h:
+                        bad = pth
+                        break
+                    if x in seen or x in progress or x not in body:
+                        continue
+                    seen.add(x)
+                    for y in f.succ[x]:
+                        stack.append((y, pth + [y]))
+            key = "%s|%s|loop#%d" % (rule, f.short, sorted(loops).index(h) + 1)
+            (rep.ok if bad is None else rep.fail)(
+                rule, key, "every cycle of the loop passes an Iterator::next, a worklist pop or a counter's exit test" if bad is None else
+                "%s has a loop with a cycle that neither consumes an iterator nor passes the exit test of a counter: nothing bounds the "
+                "number of times it goes round, so an expansion may never end" % f.short,
+                [f.blocks[h]["term"]["loc"]] + [f.blocks[b]["term"]["loc"] for b in (bad or [])[-2:-1]])
+    rep.floor(rule, "loops in the transform module", n, 8)
+
+
+def r06k(ctx, rep, rule="R06k"):
+    """turning a heap value into a tree costs no more than the value is big"""
+    facts = ctx["facts"]
+    rep.rule(rule, "a result, a displayed value and the irritant of an error message are Cell trees made from the heap's object "
+             "graph by a recursive conversion. A conversion that remembers only the nodes on the current path (it removes them "
+             "from its set on the way back) cuts cycles but converts a shared sub-object once for every path that leads to it: "
+             "a 65-cell structure (let loop ((i 0) (x '())) (if (< i 64) (loop (+ i 1) (cons x x)) x)) has 2^64 paths. Every "
+             "self-recursive function of the heap module that carries such a path set (a &mut HashSet parameter it removes "
+             "from) therefore also carries a bound on the work — a counter it compares — or it keeps what it has converted "
+             "(no removal).")
+    n = 0
+    for path, f in sorted(facts.fns.items()):
+        if not path.startswith("marwood::vm::heap::") or "{closure" in path:
+            continue
+        if not any(callee(t) == path for bb, t in f.calls()):
+            continue
+        sets = [i for i in range(1, f.argc + 1) if "&mut std::collections::HashSet<" in (f.locals[i] or "")]
+        if not sets:
+            continue
+        n += 1
+        removes = [t["loc"] for bb, t in f.calls() if re.search(r"HashSet::<[^>]*>::remove|HashSet<.*>::remove", (callee(t) or "") + (t.get("fnargs") or ""))]
+        budget = False
+        for bb, b in enumerate(f.blocks):
+            t = b["term"]
+            if t["k"] != "switch":
+                continue
+            o = f.origin(t["op"])
+            if o[0] == "rv" and o[1]["rv"]["k"] == "bin" and o[1]["rv"]["op"] in ("Gt", "Ge", "Lt", "Le", "Eq", "Ne") and \
+                    o[1]["rv"].get("aty") in ("usize", "u64", "u32"):
+                for side in ("a", "b"):
+                    oo = f.origin(o[1]["rv"][side])
+                    if oo[0] == "arg" and oo[1] not in sets:
+                        budget = True
+        key = "%s|%s|shared-substructure" % (rule, f.short)
+        ok = not removes or budget
+        (rep.ok if ok else rep.fail)(
+            rule, key, "%s keeps what it has converted, or carries a bound" % f.short if ok else
+            "%s forgets a node when it leaves it (HashSet::remove) and carries no bound: a sub-object reachable along k paths is "
+            "converted k times, and a small shared structure makes a result, a display or an error message cost exponential time "
+            "and memory" % f.short, removes[:2])
+    rep.floor(rule, "recursive conversions with a path set in the heap module", n, 1)
+
+
 def run(ctx, rep):
     from . import numeric, tables, runloop
     r06a(ctx, rep)
@@ -1626,6 +1766,8 @@ def run(ctx, rep):
     r06y(ctx, rep)
     r06s(ctx, rep)
     r06v(ctx, rep)
+    r06j(ctx, rep)
+    r06k(ctx, rep)
     from . import runloop as _rl
     _rl.r06h(ctx, rep)
     # R06v: the n-ary list walks of the prelude need a list to end on
